@@ -46,7 +46,7 @@ class CommandRun:
     def __init__(self, repo, *, cls_name="GCodeBuilder", tier="quick", pins=None, transform="identity",
                  max_dev="tier", sign_mode="bool", methods=None, exclude=(), event_funcs=(), with_invalid=True,
                  point_variants=("none", "point"), per_path_setup=None, cm_body=("pass",), max_paths=400000,
-                 nanable=None, jobs=None, loop_unroll=None, pin_halt=True):
+                 nanable=None, jobs=None, loop_unroll=None, pin_halt=True, io_failures=False):
         self.repo = str(repo)
         self.cls_name = cls_name
         self.tier = tier
@@ -70,6 +70,7 @@ class CommandRun:
         # commands the halt mode is OFF.  While it is inductive the worlds
         # start from OFF; as soon as one path breaks it, everything is redone
         # from an arbitrary halt mode.
+        self.io_failures = io_failures
         self.pin_halt = pin_halt and cls_name == "GCodeBuilder"
         self.halt_note = None
 
@@ -82,6 +83,7 @@ class CommandRun:
         I.transform_mode = self.transform
         I.sign_mode = self.sign_mode
         I.event_funcs = set(self.event_funcs)
+        I.io_failures = self.io_failures
         if self.pins is not None:
             I.default_fact = self.pins
         if self.nanable is not None:
